@@ -411,6 +411,7 @@ pub fn wire_type(t: &Ty) -> u8 {
         Ty::Set(_) => T_SET,
         Ty::Map(..) => T_MAP,
         Ty::Struct(_) => T_STRUCT,
+        Ty::Alias(_, t) => wire_type(t),
     }
 }
 
@@ -482,6 +483,10 @@ impl<'a> GenCtx<'a> {
                 let def = sc.get(n).expect("struct in schema").clone();
                 self.nodes -= 1;
                 self.of_struct(sc, ev, &def, depth)
+            }
+            Ty::Alias(_, inner) => {
+                self.nodes -= 1;
+                self.of_ty(sc, ev, inner, depth)
             }
         }
     }
@@ -565,7 +570,10 @@ impl<'a> GenCtx<'a> {
 }
 
 fn is_deep(t: &Ty) -> bool {
-    matches!(t, Ty::Struct(_) | Ty::List(_) | Ty::Set(_) | Ty::Map(..))
+    match t {
+        Ty::Alias(_, inner) => is_deep(inner),
+        _ => matches!(t, Ty::Struct(_) | Ty::List(_) | Ty::Set(_) | Ty::Map(..)),
+    }
 }
 
 /// A chain `{fid: {fid: ... {} }}` of `depth` nested structs (depth >= 1).
